@@ -121,7 +121,12 @@ func (e *Exec) scenarioShape(path string, t types.Type, a string) ([]altFn, bool
 			outT := w.namedType("pkg/generator", "output")
 			fileT := w.namedType("pkg/codegen", "File")
 			var tags []Val
+			jsonOnly := false
 			for _, tg := range args {
+				if tg == "@jsononly" { // not a tag: the formatter list without --extra-imports
+					jsonOnly = true
+					continue
+				}
 				tags = append(tags, atom("tag:"+tg))
 			}
 			var tagSlice Val = SliceV{}
@@ -148,7 +153,11 @@ func (e *Exec) scenarioShape(path string, t types.Type, a string) ([]altFn, bool
 			s.CellTypes[cr.Cell] = caserT
 			// both formatters, as with --extra-imports
 			var fmts []Val
-			for _, fname := range []string{"jsonFormatter", "yamlFormatter"} {
+			fnames := []string{"jsonFormatter", "yamlFormatter"}
+			if jsonOnly {
+				fnames = fnames[:1]
+			}
+			for _, fname := range fnames {
 				ft := w.namedType("pkg/generator", fname)
 				fr2 := s.alloc(zeroVal(ft))
 				delete(s.Fresh, fr2.Cell)
@@ -157,7 +166,7 @@ func (e *Exec) scenarioShape(path string, t types.Type, a string) ([]altFn, bool
 			}
 			far := s.alloc(&Agg{Elems: fmts})
 			delete(s.Fresh, far.Cell)
-			gr := s.alloc(mkStruct(genT, map[string]Val{"config": cfg, "warner": Opaque{Tag: "warner", Typ: strFn}, "caser": cr, "formatters": SliceV{Arr: far, Len_: 2, Cap: 2}}))
+			gr := s.alloc(mkStruct(genT, map[string]Val{"config": cfg, "warner": Opaque{Tag: "warner", Typ: strFn}, "caser": cr, "formatters": SliceV{Arr: far, Len_: len(fmts), Cap: len(fmts)}}))
 			delete(s.Fresh, gr.Cell)
 			s.CellTypes[gr.Cell] = genT
 			sg := mkStruct(p.Elem(), map[string]Val{"Generator": gr, "output": or})
@@ -207,7 +216,9 @@ func (e *Exec) scenarioShape(path string, t types.Type, a string) ([]altFn, bool
 				}
 				ar := s.alloc(&Agg{Elems: tl})
 				delete(s.Fresh, ar.Cell)
-				tr := s.alloc(mkStruct(stT, map[string]Val{"Type": SliceV{Arr: ar, Len_: len(tl), Cap: len(tl)}}))
+				pm := s.alloc(&MapAgg{Tag: fmt.Sprintf("%s[%d].Properties", path, len(els))})
+				delete(s.Fresh, pm.Cell)
+				tr := s.alloc(mkStruct(stT, map[string]Val{"Type": SliceV{Arr: ar, Len_: len(tl), Cap: len(tl)}, "Properties": MapV{Cell: pm.Cell}}))
 				delete(s.Fresh, tr.Cell)
 				s.CellTypes[tr.Cell] = stT
 				els = append(els, tr)
@@ -218,6 +229,10 @@ func (e *Exec) scenarioShape(path string, t types.Type, a string) ([]altFn, bool
 			r := s.alloc(&Agg{Elems: els})
 			delete(s.Fresh, r.Cell)
 			return SliceV{Arr: r, Len_: len(els), Cap: len(els)}
+		}, a)
+	case "rtype": // rtype(schemas.TypeList | *schemas.Type | string): a reflect.Type
+		return one(func(s *State) Val {
+			return Iface{Dyn: errDynType, V: Opaque{Tag: "rtype:" + rtypeName(w, strings.TrimSpace(args[0]))}}
 		}, a)
 	case "enumvals": // enumvals(string,float64,bool,nil): a []interface{} of decoded JSON values
 		return one(func(s *State) Val {
@@ -395,7 +410,11 @@ func (e *Exec) scenarioShape(path string, t types.Type, a string) ([]altFn, bool
 			}
 			mr := s.alloc(m)
 			delete(s.Fresh, mr.Cell)
-			out := mkStruct(p.Elem(), map[string]Val{"declsByName": MapV{Cell: mr.Cell}, "warner": Opaque{Tag: "warner", Typ: types.NewSignatureType(nil, nil, nil, types.NewTuple(types.NewVar(0, nil, "", types.Typ[types.String])), nil, false)}})
+			fileT := w.namedType("pkg/codegen", "File")
+			fr := s.alloc(zeroVal(fileT))
+			delete(s.Fresh, fr.Cell)
+			s.CellTypes[fr.Cell] = fileT
+			out := mkStruct(p.Elem(), map[string]Val{"file": fr, "declsByName": MapV{Cell: mr.Cell}, "warner": Opaque{Tag: "warner", Typ: types.NewSignatureType(nil, nil, nil, types.NewTuple(types.NewVar(0, nil, "", types.Typ[types.String])), nil, false)}})
 			r := s.alloc(out)
 			delete(s.Fresh, r.Cell)
 			s.CellTypes[r.Cell] = p.Elem()
@@ -510,6 +529,62 @@ func (w *World) codegenType(s *State, kind, arg string) Val {
 		d := allocIn(mkStruct(dt, map[string]Val{"Name": lit(arg)}), dt)
 		return Iface{Dyn: types.NewPointer(nt), V: allocIn(mkStruct(nt, map[string]Val{"Decl": d}), nt)}
 	}
+	if kind == "struct" {
+		// struct:plain | struct:addl | struct:addl2 — a *codegen.StructType whose fields
+		// are an ordinary field X and/or the additional-properties map field
+		stT := w.namedType("pkg/codegen", "StructType")
+		sfT := w.namedType("pkg/codegen", "StructField")
+		mpT := w.namedType("pkg/codegen", "MapType")
+		eiT := w.namedType("pkg/codegen", "EmptyInterfaceType")
+		scT := w.namedType("pkg/schemas", "Type")
+		plain := mkStruct(sfT, map[string]Val{"Name": lit("X"), "JSONName": lit("x"), "Type": prim("string"), "SchemaType": allocIn(zeroVal(scT), scT)})
+		addl := mkStruct(sfT, map[string]Val{"Name": lit("AdditionalProperties"), "JSONName": lit("-"),
+			"Type": Iface{Dyn: types.NewPointer(mpT), V: allocIn(mkStruct(mpT, map[string]Val{"KeyType": prim("string"), "ValueType": Iface{Dyn: eiT, V: zeroVal(eiT)}}), mpT)}})
+		var fs []Val
+		switch arg {
+		case "plain":
+			fs = []Val{plain}
+		case "addl":
+			fs = []Val{addl}
+		case "addl2":
+			fs = []Val{plain, addl}
+		default:
+			unsupported("struct kind %s", arg)
+		}
+		arr := s.alloc(&Agg{Elems: fs})
+		delete(s.Fresh, arr.Cell)
+		stFields := map[string]Val{"Fields": SliceV{Arr: arr, Len_: len(fs), Cap: len(fs)}}
+		if arg != "addl" {
+			rq := s.alloc(&Agg{Elems: []Val{lit("x")}})
+			delete(s.Fresh, rq.Cell)
+			stFields["RequiredJSONFields"] = SliceV{Arr: rq, Len_: 1, Cap: 1}
+		}
+		return Iface{Dyn: types.NewPointer(stT), V: allocIn(mkStruct(stT, stFields), stT)}
+	}
 	unsupported("codegen type alternative %s:%s", kind, arg)
 	return nil
+}
+
+// rtypeName resolves the short spelling used in contracts (schemas.TypeList,
+// *schemas.Type, string) to the type string reflect.TypeOf's model produces.
+func rtypeName(w *World, short string) string {
+	ptr := strings.HasPrefix(short, "*")
+	short = strings.TrimPrefix(short, "*")
+	var t types.Type
+	if i := strings.Index(short, "."); i >= 0 {
+		t = w.namedType("pkg/"+short[:i], short[i+1:])
+	} else {
+		for _, b := range types.Typ {
+			if b.Name() == short {
+				t = b
+			}
+		}
+	}
+	if t == nil {
+		unsupported("rtype: unknown type %s", short)
+	}
+	if ptr {
+		t = types.NewPointer(t)
+	}
+	return types.TypeString(t, nil)
 }
